@@ -321,4 +321,293 @@ theorem skel_nodes (env : Env) (sch : Schema) : ∀ ns : List Node,
     rw [skel_node env sch n, skel_nodes env sch ns]
 end
 
+/-! ### idempotence of the loop -/
+
+theorem loop_append (env : Env) : ∀ (xs ys : List Constraint) (v : Val),
+    loop env (xs ++ ys) v = ((loop env ys (loop env xs v).1).1, (loop env xs v).2 ++ (loop env ys (loop env xs v).1).2)
+  | [], ys, v => by simp [loop]
+  | c :: xs, ys, v => by
+    simp only [List.cons_append, loop]
+    cases ha : attempt env v c with
+    | none => simp only; exact loop_append env xs ys v
+    | some r =>
+      obtain ⟨w, e⟩ := r
+      simp only [loop_append env xs ys w, List.cons_append]
+
+/-- R2: once the value is the single match `U` of some ENUM of the chain, no later constraint of a
+cycle-free chain turns it into a different text. -/
+theorem loop_from_match {env : Env} {chain : List Constraint} {s0 U : Str} {B : List Str}
+    (hB : Constraint.enum B ∈ chain) (hU : ciMatches env B s0 = [U]) (hnc : NoCycle env chain s0) :
+    ∀ (post : List Constraint), (∀ c ∈ post, c ∈ chain) → ∀ y, (loop env post (.str U)).1 = .str y → y = U
+  | [], _, y, h => by simp [loop] at h; exact h.symm
+  | c :: post, hsub, y, h => by
+    have hlU : env.lower U = env.lower s0 := (ciMatches_single hU).2.1
+    simp only [loop] at h
+    cases ha : attempt env (.str U) c with
+    | none =>
+      rw [ha] at h
+      exact loop_from_match hB hU hnc post (fun c' hc' => hsub c' (List.mem_cons_of_mem _ hc')) y h
+    | some r =>
+      obtain ⟨w, e⟩ := r
+      rw [ha] at h
+      simp only at h
+      cases c with
+      | enum C =>
+        simp only [attempt] at ha
+        obtain ⟨s', X, hv, hw, _, hs, hm⟩ := enumCasefold_some ha
+        cases hv
+        have hm0 : ciMatches env C s0 = [X] := by rw [← ciMatches_congr hlU]; exact hm
+        have hUX : U = X := hnc B C U X hB (hsub _ (List.mem_cons_self ..)) hU hm0
+        exact absurd (hUX ▸ (ciMatches_single hm).1) hs
+      | type t =>
+        simp only [attempt] at ha
+        obtain ⟨_, s', after, hv, hd, _⟩ := typeCoercion_some ha
+        have hn : ∀ x, w ≠ .str x := by intro x hx; cases hd <;> cases hx
+        rw [loop_nonstr env post w hn] at h
+        exact absurd h (hn y)
+      | req => simp [attempt] at ha
+      | opt => simp [attempt] at ha
+      | ext i => simp [attempt] at ha
+
+/-- Lemma A: the final value of the loop can no longer be improved by the constraint the loop
+started with. -/
+theorem final_fixed_head {env : Env} {chain : List Constraint} {s0 : Str}
+    (hcs : CaseStable env) (hnc : NoCycle env chain s0)
+    (c : Constraint) (post : List Constraint) (hsub : ∀ c' ∈ c :: post, c' ∈ chain)
+    (cur : Val) (hcur : (∃ x, cur = .str x ∧ env.lower x = env.lower s0) ∨ (∀ x, cur ≠ .str x)) :
+    attempt env (loop env (c :: post) cur).1 c = none := by
+  have hpost : ∀ c' ∈ post, c' ∈ chain := fun c' hc' => hsub c' (List.mem_cons_of_mem _ hc')
+  rcases hcur with ⟨x, hx, hlx⟩ | hn
+  · subst hx
+    simp only [loop]
+    cases c with
+    | enum B =>
+      have hB : Constraint.enum B ∈ chain := hsub _ (List.mem_cons_self ..)
+      cases ha : attempt env (.str x) (.enum B) with
+      | some r =>
+        obtain ⟨w, e⟩ := r
+        simp only
+        simp only [attempt] at ha
+        obtain ⟨s', U, hv, hw, _, hs, hm⟩ := enumCasefold_some ha
+        cases hv
+        subst hw
+        have hm0 : ciMatches env B s0 = [U] := by rw [← ciMatches_congr hlx]; exact hm
+        rcases loop_lower env post U with ⟨y, hy, _⟩ | hn
+        · have : y = U := loop_from_match hB hm0 hnc post hpost y hy
+          subst this
+          rw [hy]
+          simp only [attempt]
+          exact enumCasefold_str_iff.mpr (Or.inl (ciMatches_single hm).1)
+        · exact attempt_nonstr env _ _ hn
+      | none =>
+        simp only
+        simp only [attempt] at ha
+        rcases loop_lower env post x with ⟨y, hy, hly⟩ | hn
+        · rw [hy]
+          simp only [attempt]
+          apply enumCasefold_str_iff.mpr
+          by_cases hex : ∃ U, ciMatches env B x = [U]
+          · obtain ⟨U, hU⟩ := hex
+            rcases enumCasefold_str_iff.mp ha with hxB | hno
+            · have hxU : x = U := (ciMatches_single hU).2.2 x hxB rfl
+              subst hxU
+              have hm0 : ciMatches env B s0 = [x] := by rw [← ciMatches_congr hlx]; exact hU
+              have : y = x := loop_from_match hB hm0 hnc post hpost y hy
+              subst this
+              exact Or.inl hxB
+            · exact absurd hU (hno U)
+          · right
+            intro U hU
+            apply hex
+            exact ⟨U, by rw [← ciMatches_congr hly]; exact hU⟩
+        · exact attempt_nonstr env _ _ hn
+    | type t =>
+      cases ha : attempt env (.str x) (.type t) with
+      | some r =>
+        obtain ⟨w, e⟩ := r
+        simp only
+        simp only [attempt] at ha
+        obtain ⟨_, s', after, hv, hd, _⟩ := typeCoercion_some ha
+        have hn : ∀ z, w ≠ .str z := by intro z hz; cases hd <;> cases hz
+        rw [loop_nonstr env post w hn]
+        exact attempt_nonstr env _ _ hn
+      | none =>
+        simp only
+        rcases loop_lower env post x with ⟨y, hy, hly⟩ | hn
+        · rw [hy]
+          simp only [attempt] at ha ⊢
+          by_cases ht : t = NUMBER
+          · subst ht
+            have := hcs y x hly
+            rw [ha] at this
+            simpa using this
+          · simp [typeCoercion, NUMBER] at ht ⊢
+            intro h; exact absurd h ht
+        · exact attempt_nonstr env _ _ hn
+    | req => simp [attempt]
+    | opt => simp [attempt]
+    | ext i => simp [attempt]
+  · rw [loop_nonstr env (c :: post) cur hn]
+    exact attempt_nonstr env _ _ hn
+
+
+/-- every member of the chain leaves the loop's final value alone. -/
+theorem loop_final_fixed {env : Env} {chain : List Constraint} {s0 : Str}
+    (hcs : CaseStable env) (hnc : NoCycle env chain s0) :
+    ∀ (pre rest : List Constraint), pre ++ rest = chain →
+      ∀ cur, ((∃ x, cur = .str x ∧ env.lower x = env.lower s0) ∨ (∀ x, cur ≠ .str x)) →
+      ∀ c ∈ rest, attempt env (loop env rest cur).1 c = none
+  | pre, [], _, _, _, c, hc => by cases hc
+  | pre, d :: rest, hsplit, cur, hcur, c, hc => by
+    have hsub : ∀ c' ∈ d :: rest, c' ∈ chain := by
+      intro c' hc'; rw [← hsplit]; exact List.mem_append_right _ hc'
+    rcases List.mem_cons.mp hc with rfl | hc'
+    · exact final_fixed_head hcs hnc c rest hsub cur hcur
+    · -- the value after `d` is again in the lower-case class of `s0` (or not a text)
+      have hnext : (∃ x, (loop env [d] cur).1 = .str x ∧ env.lower x = env.lower s0) ∨ (∀ x, (loop env [d] cur).1 ≠ .str x) := by
+        rcases hcur with ⟨x, hx, hlx⟩ | hn
+        · subst hx
+          rcases loop_lower env [d] x with ⟨y, hy, hly⟩ | hn
+          · exact Or.inl ⟨y, hy, hly.trans hlx⟩
+          · exact Or.inr hn
+        · rw [loop_nonstr env [d] cur hn]; exact Or.inr hn
+      have happ := loop_append env [d] rest cur
+      simp only [List.singleton_append] at happ
+      rw [happ]
+      simp only
+      exact loop_final_fixed hcs hnc (pre ++ [d]) rest (by simp [← hsplit]) _ hnext c hc'
+
+theorem loop_idem {env : Env} {cs : List Constraint} (hcs : CaseStable env) (v : Val)
+    (hnc : ∀ s, v = .str s → NoCycle env cs s) :
+    loop env cs (loop env cs v).1 = ((loop env cs v).1, []) := by
+  apply loop_fixed
+  by_cases hv : ∃ s, v = .str s
+  · obtain ⟨s, rfl⟩ := hv
+    exact loop_final_fixed hcs (hnc s rfl) [] cs rfl (.str s) (Or.inl ⟨s, rfl, rfl⟩)
+  · have hn : ∀ s, v ≠ .str s := fun s hs => hv ⟨s, hs⟩
+    intro c _
+    rw [loop_nonstr env cs v hn]
+    exact attempt_nonstr env v c hn
+
+theorem attempt_kind {env : Env} {v w : Val} {c : Constraint} {e : Entry} (h : attempt env v c = some (w, e)) :
+    w.isZone = false ∧ w.isNone = false := by
+  cases c with
+  | enum A =>
+    simp only [attempt] at h
+    obtain ⟨_, X, _, hw, _⟩ := enumCasefold_some h
+    subst hw; exact ⟨rfl, rfl⟩
+  | type t =>
+    simp only [attempt] at h
+    obtain ⟨_, s', after, _, hd, _⟩ := typeCoercion_some h
+    cases hd <;> exact ⟨rfl, rfl⟩
+  | req => simp [attempt] at h
+  | opt => simp [attempt] at h
+  | ext i => simp [attempt] at h
+
+theorem loop_kind (env : Env) : ∀ (cs : List Constraint) (v : Val), v.isZone = false → v.isNone = false →
+    (loop env cs v).1.isZone = false ∧ (loop env cs v).1.isNone = false
+  | [], v, hz, hn => by simp [loop, hz, hn]
+  | c :: cs, v, hz, hn => by
+    simp only [loop]
+    cases ha : attempt env v c with
+    | none => exact loop_kind env cs v hz hn
+    | some r =>
+      obtain ⟨w, e⟩ := r
+      simp only
+      obtain ⟨hz', hn'⟩ := attempt_kind ha
+      exact loop_kind env cs w hz' hn'
+
+/-- `repair_value` applied to its own result changes nothing and logs nothing. -/
+theorem repairValue_idem {env : Env} (hcs : CaseStable env) (sch : Schema) (k : Str) (v : Val)
+    (hnc : ∀ s, v = .str s → NoCycle env (chainOf sch k) s) :
+    repairValue env (repairValue env v (sch.get k) true).1 (sch.get k) true = ((repairValue env v (sch.get k) true).1, []) := by
+  cases hg : sch.get k with
+  | none => simp [repairValue]
+  | some fd =>
+    obtain ⟨pat⟩ := fd
+    cases pat with
+    | none => by_cases hz : v.isZone <;> simp [repairValue, hz]
+    | some pat =>
+      obtain ⟨ch, tgt⟩ := pat
+      cases ch with
+      | none => by_cases hz : v.isZone <;> simp [repairValue, hz]
+      | some ch =>
+        have hchain : chainOf sch k = ch.cs := by simp [chainOf, hg]
+        by_cases hz : v.isZone
+        · simp [repairValue, hz]
+        · by_cases he : ch.cs.isEmpty
+          · simp [repairValue, hz, he]
+          · by_cases hn : v.isNone
+            · simp [repairValue, hz, he, hn]
+            · have hz' : v.isZone = false := by simpa using hz
+              have hn' : v.isNone = false := by simpa using hn
+              obtain ⟨hz2, hn2⟩ := loop_kind env ch.cs v hz' hn'
+              have hidem := loop_idem (cs := ch.cs) hcs v (by rw [← hchain]; exact hnc)
+              simp [repairValue, hz', hn', he, hz2, hn2, hidem]
+
+
+theorem step_notZone {env : Env} {chain : List Constraint} {c : Constraint} {v w : Val} {e : Entry}
+    (h : Step env chain c v w e) : w.isZone = false := by
+  cases h with
+  | casefold => rfl
+  | coerce s w after _ hd => cases hd <;> rfl
+
+theorem steps_notZone {env : Env} {chain : List Constraint} {v w : Val} {es : List Entry}
+    (h : Steps env chain v w es) (hz : v.isZone = false) : w.isZone = false := by
+  induction h with
+  | nil => exact hz
+  | cons hstep _ ih => exact ih (step_notZone hstep)
+
+theorem idem_assign {env : Env} (hcs : CaseStable env) (sch : Schema) (p : Pos) (k : Str) (v : Val)
+    (hnc : ∀ s, v = .str s → NoCycle env (chainOf sch k) s) :
+    repairNode env sch (repairNode env sch (.assign p k v)).1 = ((repairNode env sch (.assign p k v)).1, []) := by
+  by_cases hz : v.isZone
+  · simp [repairNode, hz]
+  · cases hg : sch.get k with
+    | none => simp [repairNode, hz, hg]
+    | some fd =>
+      have hz' : v.isZone = false := by simpa using hz
+      have hid := repairValue_idem hcs sch k v hnc
+      rw [hg] at hid
+      have hnil := repairValue_nil_eq env sch k v
+      rw [hg] at hnil
+      -- the value stored by the first run is the repaired value in every case
+      have hval : (if (repairValue env v (some fd) true).2.isEmpty then v else (repairValue env v (some fd) true).1)
+          = (repairValue env v (some fd) true).1 := by
+        split
+        · rename_i h
+          exact (hnil (by simpa using h)).symm
+        · rfl
+      -- it is not a zone
+      have hz2 : (repairValue env v (some fd) true).1.isZone = false := by
+        have hs := repairValue_steps env sch k v
+        rw [hg] at hs
+        exact steps_notZone hs hz'
+      simp only [repairNode, hz', Bool.false_eq_true, ↓reduceIte, hg, hval, hz2, hid, List.isEmpty_nil]
+
+
+mutual
+theorem idem_node {env : Env} (hcs : CaseStable env) (sch : Schema) : ∀ n : Node, DocNoCycle env sch n.leaves →
+    repairNode env sch (repairNode env sch n).1 = ((repairNode env sch n).1, [])
+  | .assign p k v, h => by
+    apply idem_assign hcs sch p k v
+    intro s hs
+    subst hs
+    exact h k s (by simp [Node.leaves])
+  | .block p k t cs, h => by
+    have := idem_nodes hcs sch cs (by simpa [Node.leaves] using h)
+    simp only [repairNode, this]
+  | .sect p i k a cs, h => by
+    have := idem_nodes hcs sch cs (by simpa [Node.leaves] using h)
+    simp only [repairNode, this]
+  | .other p id, _ => by simp [repairNode]
+theorem idem_nodes {env : Env} (hcs : CaseStable env) (sch : Schema) : ∀ ns : List Node, DocNoCycle env sch (Node.leavesList ns) →
+    repairNodes env sch (repairNodes env sch ns).1 = ((repairNodes env sch ns).1, [])
+  | [], _ => by simp [repairNodes]
+  | n :: ns, h => by
+    have h1 := idem_node hcs sch n (fun k s hm => h k s (by simp [Node.leavesList, hm]))
+    have h2 := idem_nodes hcs sch ns (fun k s hm => h k s (by simp [Node.leavesList, hm]))
+    simp only [repairNodes, h1, h2, List.append_nil]
+end
+
 end Octave.Lemmas
